@@ -22,7 +22,7 @@ FIXED = [
  ("MTGraph::run panicked (or hung)", "C07", "mtsim: FailAt block returns Err on call k -> MTGraph::run unwinds via expect(\"block exit status\"), or never returns when an upstream FftFilterFloat (WaitForFunc) cannot see its reader is gone"),
  ("Graph::run could return while samples", "C06", "graphsim: VectorSource -> ... -> sink added in non-topological order: run() returns after the pass in which the source emitted and returned EOF; sink empty/short"),
  ("derive(Block) sync blocks with three or more inputs", "C19", "build: a harness block with three #[rustradio(in)] streams in sync mode fails to compile (nested tuple vs flat pattern in the generated work())"),
- ("Append mode did not create", "C17", "iosim: Mode::Append on an absent file -> ENOENT although the documentation says it is created"),
+ ("Append mode did not create a missing file", "C17", "iosim: Mode::Append on an absent file -> ENOENT although the documentation says it is created"),
  ("Repeat::again underflowed", "C16", "rig: Repeat::finite(0).again() underflows; FileSource/SigMFSource with finite(0) emit the data once and then panic"),
  ("VectorSource::first", "C16", "rig: VectorSource emitting its first repetition in several pieces tags every piece with VectorSource::first"),
  ("AuDecode panicked", "C15", "rig: AU header with data offset < 24 -> subtraction overflow / slice out of range"),
@@ -30,7 +30,7 @@ FIXED = [
  ("HdlcDeframer lost valid frames", "C13", "rig: frame of exactly max_size bytes dropped; valid frame with a single/shared opening flag lost after an over-long or aborted frame (flag hunt restarted from all-ones history)"),
  ("SigMFSource panicked when the data was shorter", "C15", "rig: archive truncated inside its data member -> assert_ne!(n, 0) in SigMFSource::work"),
  ("HdlcDeframer panicked", "C13", "rig: frame shorter than the CRC with min_size <= 1 and checksum on -> subtraction overflow"),
- ("TcpSource", "C14", "iosim: read shorter than the missing part of a split sample -> garbage sample / subtraction overflow; full output treated as EOF"),
+ ("TcpSource corrupted samples", "C14", "iosim: read shorter than the missing part of a split sample -> garbage sample / subtraction overflow; full output treated as EOF"),
 ]
 def main():
     log = subprocess.run(["git","-C","/repo","log","--format=%h %s"],capture_output=True,text=True).stdout.splitlines()
